@@ -371,6 +371,66 @@ def model_probe(req):
     return out
 
 
+def _norm_weights(tree):
+    """weights are numbers: 1 and 1.0 are the same weight (the AST comparison is by numeric value there)"""
+    for n in pyast.walk(tree):
+        if isinstance(n, pyast.Call):
+            for k in n.keywords:
+                if k.arg in ("weights", "cum_weights") and isinstance(k.value, pyast.List):
+                    for el in k.value.elts:
+                        if isinstance(el, pyast.Constant) and isinstance(el.value, (int, float)) and not isinstance(el.value, bool):
+                            el.value = float(el.value)
+
+
+def _canon(src, sort_params=True):
+    tree = pyast.parse(src)
+    if sort_params:
+        for n in pyast.walk(tree):
+            if isinstance(n, pyast.FunctionDef):
+                n.args.args.sort(key=lambda a: a.arg)
+            if isinstance(n, pyast.Call):
+                n.keywords.sort(key=lambda k: k.arg or "")
+    _norm_weights(tree)
+    return pyast.dump(tree)
+
+
+@register("tv_diff")
+def tv_diff(req):
+    """bounded TRANSLATION VALIDATION of the generator: for generated (or given) programs, the Python AST of the real
+    PythonCodeGen output (both layouts) must equal the AST of D(spec AST), D written from the property statements"""
+    from pyab_experiment.codegen.python.python_generator import PythonCodeGen
+    from pyab_experiment.utils.wraper_functions import parse_source
+    from spec import d_ref
+    rnd = random.Random(req.get("seed", 0))
+    progs = []
+    for t in req.get("programs") or []:
+        st, a = dsl_ref.parse_text(t)
+        if st == "ok":
+            progs.append((a, t))
+    if not req.get("programs"):
+        for i in range(req.get("count", 150)):
+            exp = dsl_ref.gen_experiment(rnd)
+            try:
+                progs.append((exp, dsl_ref.render(exp, redundant=rnd.random() < 0.3)))
+            except ValueError:
+                continue
+    fails, n = [], 0
+    for exp, text in progs:
+        for expose in (False, True):
+            n += 1
+            try:
+                real = quiet(lambda: PythonCodeGen(parse_source(text), expose_experiment_variant_function=expose).generate())
+                a = _canon(real)
+            except BaseException as e:   # noqa
+                a = "generator failed: %s: %s" % (type(e).__name__, str(e)[:200])
+                real = ""
+            b = _canon(d_ref.full_module(exp, expose))
+            if a != b and len(fails) < req.get("limit", 2):
+                i = next((k for k, (x, y) in enumerate(zip(a, b)) if x != y), min(len(a), len(b)))
+                fails.append({"text": text, "layout": "exposed" if expose else "nested", "first_difference": {"real": a[max(0, i - 120):i + 160], "expected": b[max(0, i - 120):i + 160]}})
+    return {"evaluations": n, "failures": fails, "bound": "%d programs x 2 layouts" % len(progs)}
+
+
 @register("parse_oracle")
 def parse_oracle(req):
     """CPython's own parser as the decision procedure for template obligations: parse `real` and `expected` texts of
@@ -389,6 +449,7 @@ def parse_oracle(req):
                             n.args.args.sort(key=lambda a: a.arg)
                         if isinstance(n, pyast.Call):
                             n.keywords.sort(key=lambda k: k.arg or "")
+                _norm_weights(tree)
                 r[side] = pyast.dump(tree)
             except SyntaxError as e:
                 r[side] = "SyntaxError: %s (line %s)" % (e.msg, e.lineno)
